@@ -14,7 +14,7 @@ PATHS = ["/tmp/x", "rel/y", "/a/b/c.txt"]
 COLORS = ["RED", "GREEN", "BLUE"]
 SHAPES = ["DOT", "BOX"]
 
-TASKS = {"TaskA", "TaskOut", "NewT", "OldT"}
+TASKS = {"TaskA", "TaskOut", "NewT", "OldT", "TaskSelf"}
 LIGHT = {"Pre", "Init"} | TASKS
 
 # class -> {slot: kind}
@@ -39,15 +39,16 @@ SLOTS = {
     "W1": dict(x="int", c="ocfg"), "W2": dict(x="int", c="ocfg"),
     "S2": dict(a="str!", b="str"),
     "EH": dict(lv="Level", md="oMode", x="int"),
+    "TaskSelf": dict(x="int", c="cfg!"),
 }
 CLASS_WEIGHTS = [("Leaf", 6), ("Inner", 7), ("Bag", 5), ("Req", 1), ("TaskA", 2), ("TaskOut", 1), ("Pre", 1),
-                 ("Init", 1), ("NewL", 1), ("OldL", 1), ("NewT", 1), ("OldT", 1), ("V1", 1), ("V2", 1), ("K1", 1), ("W1", 1), ("S2", 1), ("EH", 2)]
+                 ("Init", 1), ("NewL", 1), ("OldL", 1), ("NewT", 1), ("OldT", 1), ("V1", 1), ("V2", 1), ("K1", 1), ("W1", 1), ("S2", 1), ("EH", 2), ("TaskSelf", 2)]
 # slots whose declaration is ignored (Meta/Option) -- used by the neutral-edit generator
 IGNORED = {"Leaf": {"m", "op", "mp"}, "Inner": {"mc", "oc"}, "Bag": {"mlc", "lp"}, "Init": {"w"}, "V2": {"z"}}
 DEFAULTS = {("Leaf", "f"): 1.5, ("Leaf", "s"): "a", ("Leaf", "b"): False, ("Leaf", "e"): "RED", ("Inner", "x"): 0,
             ("Inner", "name"): "", ("TaskA", "x"): 0, ("TaskOut", "x"): 0, ("Pre", "v"): 0, ("Init", "v"): 0,
             ("NewL", "i"): 0, ("OldL", "i"): 0, ("NewT", "x"): 0, ("OldT", "x"): 0, ("V2", "y"): 3, ("V2", "aa"): "dflt",
-            ("K1", "x"): 0, ("K2", "x"): 0, ("W1", "x"): 0, ("W2", "x"): 0, ("S2", "b"): ""}
+            ("K1", "x"): 0, ("K2", "x"): 0, ("W1", "x"): 0, ("W2", "x"): 0, ("S2", "b"): "", ("TaskSelf", "x"): 0, ("EH", "x"): 0}
 
 
 def vint(v):
@@ -288,9 +289,17 @@ def g_expect(a):
     return f"(XDigest {gbytes(bytes.fromhex(a))}%N)"
 
 
+def g_cache(nodes):
+    def ent(x):
+        raw = "None" if not x.get("craw") else f"(Some ({gbytes(bytes.fromhex(x['craw'][0]))}%N, {gbool(x['craw'][1])}))"
+        full = "None" if not x.get("cfull") else f"(Some {gbytes(bytes.fromhex(x['cfull']))}%N)"
+        return f"{{| k_sealed := {gbool(x['sealed'])}; k_raw := {raw}; k_full := {full} |}}"
+    return glist(ent(x) for x in nodes)
+
+
 def g_icase(export, ops, answers):
     return (f"{{| i_classes := {g_classes(export['classes'])}; i_heap := {g_heap(export['nodes'])}; "
-            f"i_sealed := {glist(gbool(x['sealed']) for x in export['nodes'])}; "
+            f"i_cache := {g_cache(export['nodes'])}; "
             f"i_ops := {glist(g_op(o) for o in ops)}; i_expect := {glist(g_expect(a) for a in answers)} |}}")
 
 
